@@ -722,7 +722,8 @@ theorem serverName_when_verifying (o : SslOpts) (t : OutCfg) (hs : setupTLSConfi
         gets is `Spec.dialDemand`: with SslOpts a TLS handshake is started on EVERY connection and the connection is
         handed on exactly when `Spec.mayProceed` (documented table, expected name = ServerName else the host's
         name, the CAs the client was given); without SslOpts the connection is plain and coalescing stays allowed;
-        when verifying, the ServerName handed to crypto/tls is the expected name. -/
+        when verifying, the ServerName handed to crypto/tls is the expected name; a node the caller's own verification
+        callback rejects is never handed on when the caller supplied a Config (the derived config still carries it). -/
 theorem C20_every_dialer (c : DialCfg) (d : DialTry) :
     (∀ b, dialHost { c with dialer := b } d = dialHost c d) ∧
     (c.hostDialer = true → dialHost c d = .ok ⟨none, none, .caller⟩) ∧
@@ -730,7 +731,7 @@ theorem C20_every_dialer (c : DialCfg) (d : DialTry) :
     (∀ ip obs, c.hostDialer = false → d.host.ip = some ip → d.host.port ≠ [48] → colon ∉ d.host.port →
       d.dialOk = true → dialHost c d = .ok obs →
         obs.tcp = some (joinHostPort ip d.host.port) ∧
-        obs.demand = Spec.dialDemand c.ssl d.host.name d.cert ∧
+        obs.demand = Spec.dialDemand c.ssl d.host.name d.cert d.veto ∧
         (c.ssl = none → obs.res = .plain) ∧
         (∀ o, c.ssl = some o → obs.res ≠ .plain ∧
           (Spec.mustVerify o = true → obs.serverName = some (Spec.expectedName o d.host.name)))) := by
@@ -760,24 +761,30 @@ theorem C20_every_dialer (c : DialCfg) (d : DialTry) :
       | ok t =>
         have hacc := accepts_eq_mayProceed o t hs d.host.name d.host.port d.cert hp
         simp only [dialHost, connConfig, Bool.false_eq_true, if_false, hs, dialDefault, hip, hport, hok, Bool.not_true,
-          wrapCode, trustOf, hacc, Except.ok.injEq] at h
+          wrapCode, trustOf, cbOf, hacc, Except.ok.injEq] at h
         subst h
         refine ⟨rfl, ?_, (fun h => by cases h), ?_⟩
-        · cases hm : Spec.mayProceed o d.host.name d.cert <;> simp [DialObs.demand, Spec.dialDemand, hm]
+        · cases hm : Spec.mayProceed o d.host.name d.cert <;> cases hc : o.cfg <;> cases hv : d.veto <;>
+            simp [DialObs.demand, Spec.dialDemand, hm, hc, hv]
         · intro o' ho'
           cases ho'
           refine ⟨?_, fun hv => ?_⟩
-          · cases hm : Spec.mayProceed o d.host.name d.cert <;> simp
+          · cases hm : Spec.mayProceed o d.host.name d.cert <;> cases hc : o.cfg <;> cases hv : d.veto <;> simp [hc, hv]
           · simp only [serverName_when_verifying o t hs d.host.name d.host.port hp hv]
 
 /-- non-vacuity: the caller's own Dialer, host verification on, CA given: node b presenting node a's certificate is
     refused after a TLS handshake was started; the TCP dial went to the address, the name checked is the host's -/
 example : (dialHost ⟨false, true, some ⟨none, true, .valid, .absent, .absent⟩⟩
-    ⟨⟨strBytes "b", some (strBytes "10.0.0.2"), strBytes "9042"⟩, true, ⟨[strBytes "a"], .fileCA⟩⟩).toOption =
+    ⟨⟨strBytes "b", some (strBytes "10.0.0.2"), strBytes "9042"⟩, true, ⟨[strBytes "a"], .fileCA⟩, false⟩).toOption =
     some ⟨some (strBytes "10.0.0.2:9042"), some (strBytes "b"), .errTls⟩ := by decide
 example : (dialHost ⟨false, false, none⟩
-    ⟨⟨strBytes "b", some (strBytes "::1"), strBytes "9042"⟩, true, ⟨[], .rogue⟩⟩).toOption =
+    ⟨⟨strBytes "b", some (strBytes "::1"), strBytes "9042"⟩, true, ⟨[], .rogue⟩, false⟩).toOption =
     some ⟨some (strBytes "[::1]:9042"), none, .plain⟩ := by decide
+
+/-- non-vacuity: the caller's Config (InsecureSkipVerify even) with a callback that rejects the node: refused -/
+example : (dialHost ⟨false, false, some ⟨some ⟨true, [], false, 0⟩, false, .absent, .absent, .absent⟩⟩
+    ⟨⟨strBytes "b", some (strBytes "10.0.0.2"), strBytes "9042"⟩, true, ⟨[strBytes "b"], .rogue⟩, true⟩).toOption.map (·.res) =
+    some .errTls := by decide
 
 /-- SEVERAL DIALS, ONE SHARED tls.Config.  For every configuration and every sequence of dials of one session's
     dialer (any hosts in any order, re-dials, failing TCP dials, hosts without address or port in between):
@@ -789,10 +796,10 @@ example : (dialHost ⟨false, false, none⟩
 theorem C20_tls_per_dial (c : DialCfg) (ds : List DialTry) (obs : List DialObs) (h : dialAll c ds = .ok obs) :
     obs.length = ds.length ∧
     (∀ i (hi : i < ds.length) (hj : i < obs.length), dialHost c ds[i] = .ok obs[i]) ∧
-    (∀ b tls, connConfig c = .ok (.dflt b tls) → dialFinal wrapCode (trustOf c) tls ds = tls) ∧
+    (∀ b tls, connConfig c = .ok (.dflt b tls) → dialFinal wrapCode (trustOf c) (cbOf c) tls ds = tls) ∧
     (c.hostDialer = false →
       (∀ d ∈ ds, d.host.ip.isSome = true ∧ d.host.port ≠ [48] ∧ colon ∉ d.host.port ∧ d.dialOk = true) →
-      obs.map DialObs.demand = ds.map (fun d => Spec.dialDemand c.ssl d.host.name d.cert)) := by
+      obs.map DialObs.demand = ds.map (fun d => Spec.dialDemand c.ssl d.host.name d.cert d.veto)) := by
   have key : obs.length = ds.length ∧
       (∀ i (hi : i < ds.length) (hj : i < obs.length), dialHost c ds[i] = .ok obs[i]) := by
     simp only [dialAll] at h
@@ -808,11 +815,11 @@ theorem C20_tls_per_dial (c : DialCfg) (ds : List DialTry) (obs : List DialObs) 
       | dflt b tls =>
         simp only [Except.ok.injEq] at h
         subst h
-        rw [(dialSeq_readonly wrapCode wrapCode_readonly (trustOf c) tls ds).1]
+        rw [(dialSeq_readonly wrapCode wrapCode_readonly (trustOf c) (cbOf c) tls ds).1]
         exact ⟨by simp, fun i hi hj => by simp [dialHost, hc]⟩
   refine ⟨key.1, key.2, ?_, ?_⟩
   · intro b tls _
-    exact (dialSeq_readonly wrapCode wrapCode_readonly (trustOf c) tls ds).2
+    exact (dialSeq_readonly wrapCode wrapCode_readonly (trustOf c) (cbOf c) tls ds).2
   · intro hh hv
     apply List.ext_getElem
     · simp [key.1]
@@ -832,11 +839,11 @@ theorem C20_cex_pinned_server_name :
     let o : SslOpts := ⟨none, true, .valid, .absent, .absent⟩
     let c : DialCfg := ⟨false, false, some o⟩
     let certA : ServerCert := ⟨[strBytes "a"], .fileCA⟩
-    let da : DialTry := ⟨⟨strBytes "a", some (strBytes "10.0.0.1"), strBytes "9042"⟩, true, certA⟩
-    let db : DialTry := ⟨⟨strBytes "b", some (strBytes "10.0.0.2"), strBytes "9042"⟩, true, certA⟩
-    (dialSeq wrapPinned (trustOf c) (some ⟨false, [], true, 0, false⟩) [da, db]).map (·.res) = [.tls, .tls] ∧
+    let da : DialTry := ⟨⟨strBytes "a", some (strBytes "10.0.0.1"), strBytes "9042"⟩, true, certA, false⟩
+    let db : DialTry := ⟨⟨strBytes "b", some (strBytes "10.0.0.2"), strBytes "9042"⟩, true, certA, false⟩
+    (dialSeq wrapPinned (trustOf c) (cbOf c) (some ⟨false, [], true, 0, false⟩) [da, db]).map (·.res) = [.tls, .tls] ∧
     (dialAll c [da, db]).toOption.map (·.map (·.res)) = some [.tls, .errTls] ∧
-    [Spec.dialDemand c.ssl da.host.name da.cert, Spec.dialDemand c.ssl db.host.name db.cert] =
+    [Spec.dialDemand c.ssl da.host.name da.cert false, Spec.dialDemand c.ssl db.host.name db.cert false] =
       [⟨true, true⟩, ⟨true, false⟩] ∧
     (dialAll c [db, da]).toOption.map (·.map (·.res)) = some [.errTls, .tls] := by
   decide
